@@ -63,7 +63,13 @@ def make_classes():
     @wamp.error("com.myapp.error.decorated.sub")
     class DecoratedSub(Decorated):
         pass
-    return {"DecoratedSub": DecoratedSub, "Decorated": Decorated, "Defined": Defined, "NoKwargs": NoKwargs, "OneArg": OneArg, "Exploding": Exploding}
+
+    @wamp.error("com.my-app.error.out-of-stock_2")      # hyphens are legal in URI components (loose WAMP rule; autobahn.wamp.uri.Pattern accepts them)
+    class DecoratedHyphen(Exception):
+        def __init__(self, *args, **kwargs):
+            Exception.__init__(self, *args)
+            self.kwargs = kwargs
+    return {"DecoratedHyphen": DecoratedHyphen, "DecoratedSub": DecoratedSub, "Decorated": Decorated, "Defined": Defined, "NoKwargs": NoKwargs, "OneArg": OneArg, "Exploding": Exploding}
 
 
 def strategy():
@@ -73,7 +79,9 @@ def strategy():
     kws = st.dictionaries(st.sampled_from(["a", "b", "reason", "código", "x_1"]), W.values, max_size=3)
     return st.fixed_dictionaries({
         "kind": st.sampled_from(["app", "app", "decorated", "defined", "undefined", "undefined-builtin", "nokwargs", "onearg", "exploding", "subclass-defined", "subclass-undefined", "decorated-subclass", "decorated-base", "defined-typeerror", "undefined-typeerror"]),
-        "uri": st.sampled_from(["com.myapp.error.custom", "wamp.error.not_authorized", "com.myapp.error.decorated", "a.b"]),
+        # URIs: strict ones, and ones only the loose WAMP rule admits (upper case, hyphen, non-ASCII) - every receive path of the library and Error.parse use the loose rule
+        "uri": st.sampled_from(["com.myapp.error.custom", "wamp.error.not_authorized", "com.myapp.error.decorated", "a.b",
+                                "com.myapp.error.NotFound", "com.my-app.error.not-found", "com.myapp.érreur.naïve", "COM.X.E_1"]),
         "args": vals, "kwargs": kws, "tb": st.booleans(), "caller_knows": st.booleans(), "async_endpoint": st.booleans(),
         "ser": st.sampled_from(["json", "msgpack", "cbor", "ubjson"]), "own_tb": st.sampled_from([False, False, False, True]),
         "check_types": st.sampled_from([False, False, True]), "alias": st.sampled_from([None, None, "before", "after"]), "codec": st.sampled_from([False, False, True])})      # the procedure is registered with check_types=True (the library wraps the endpoint)
@@ -92,6 +100,8 @@ def check_flow(c):
         caller.join()
         M = callee.message
         kind, uri, args, kwargs = c["kind"], c["uri"], list(c["args"]), dict(c["kwargs"])
+        if kind != "app" and not all(ch.islower() or ch.isdigit() or ch in "._-" for ch in uri if ord(ch) < 128) or (kind != "app" and any(ord(ch) > 127 for ch in uri)):
+            uri = "com.my-app.error.mapped-1"      # define() goes through uri.Pattern: lower case, digits, '_' and '-' only
         callee.session.traceback_app = c["tb"]
         wire_codec = None
         if c.get("codec"):
@@ -119,9 +129,10 @@ def check_flow(c):
             def make():
                 return ApplicationError(uri, *args, **dict(kwargs))
         elif kind == "decorated":
-            cls = classes["Decorated"]
+            hy = c.get("uri", "").startswith("com.my")
+            cls = classes["DecoratedHyphen" if hy and "-" in c["uri"] else "Decorated"]
             callee.session.define(cls)
-            expect_uri = "com.myapp.error.decorated"
+            expect_uri = "com.my-app.error.out-of-stock_2" if cls is classes["DecoratedHyphen"] else "com.myapp.error.decorated"
 
             def make():
                 return cls(*args, **kwargs)
